@@ -127,12 +127,14 @@ def run_program(inst, mode):
             except (symx.Abort, symx.PathTimeout):
                 raise
             except Exception as e:  # noqa: BLE001 -- the backend refuses (reports an error)
+                symx.reraise_watchdog(e)
                 return ("refused", f"{type(e).__name__}: {str(e)[:100]}")
         try:
             items = wasmfam.write_module(wm)
         except (symx.Abort, symx.PathTimeout):
             raise
         except Exception as e:  # noqa: BLE001 -- failing while writing is a refusal too (an error is reported, nothing is emitted)
+            symx.reraise_watchdog(e)
             return ("refused", f"WriteTo: {type(e).__name__}: {str(e)[:100]}")
         dropped = em.dropped()
         try:
@@ -154,6 +156,7 @@ def run_program(inst, mode):
         except ZeroDivisionError:
             raise symx.Abort("infeasible")          # the VM's defined failure: outside the comparison
         except Exception as e:  # noqa: BLE001
+            symx.reraise_watchdog(e)
             return ("vm-failed", f"{type(e).__name__}: {e}", dropped)
         if isinstance(r_vm, symx.SymNum) and not r_vm.isf:
             symx.current().assume(z3.And(r_vm.e >= I32_MIN, r_vm.e <= I32_MAX))
